@@ -127,7 +127,11 @@ CPolys == UNION {{PolyOfRows(<<r>>) : r \in CRows}, {PolyOfRows(<<r, s>>) : r \i
                  IF NP >= 3 THEN {PolyOfRows(<<r, s, u>>) : r \in CRows, s \in CRows, u \in {<<<<1, 0>>, 1>>, <<<<0, 1>>, 0>>, <<<<0, 0>>, 0>>, <<<<3, 4>>, 5>>, <<<<-1, 0>>, -1>>}} ELSE {}}
 \* always included: infeasible systems with a superfluous row (number of rows differs from the dimension)
 CExtra == {PolyOfRows(<<<<<<1, 0>>, 1>>, <<<<0, 0>>, -1>>, <<<<0, 1>>, 0>>>>), PolyOfRows(<<<<<<1, 0>>, -1>>, <<<<-1, 0>>, -1>>, <<<<0, 1>>, 5>>>>),
-           PolyOfRows(<<<<<<3, 4>>, 5>>, <<<<-3, -4>>, -10>>, <<<<1, 0>>, 1>>, <<<<0, 1>>, 0>>>>)}
+           PolyOfRows(<<<<<<3, 4>>, 5>>, <<<<-3, -4>>, -10>>, <<<<1, 0>>, 1>>, <<<<0, 1>>, 0>>>>),
+           \* a zero row in front of a duplicated pair; the same normal twice with the tighter bound last; tautology and absurd zero rows
+           PolyOfRows(<<<<<<0, 0>>, 0>>, <<<<1, 0>>, 1>>, <<<<0, 1>>, 0>>, <<<<1, 0>>, 1>>>>),
+           PolyOfRows(<<<<<<1, 0>>, 1>>, <<<<0, 1>>, 0>>, <<<<1, 0>>, 0>>>>),
+           PolyOfRows(<<<<<<0, 0>>, 1>>, <<<<1, 0>>, 1>>, <<<<0, 0>>, -1>>>>)}
 CleanOps == {"remove_tautologies", "remove_duplicate_rows", "remove_redundant", "normalize", "remove_zero_rows", "remove_rows"}
 
 \* ---------------------------------------------------------------- affine algebra (C16)
@@ -178,7 +182,7 @@ AffOps ==
     \cup {[op |-> "stack", f |-> f, g |-> g] : f \in AllF, g \in AllF}
     \cup {[op |-> o, f |-> f, g |-> g] : o \in {"add", "sub", "mul"}, f \in F22 \cup {Z22}, g \in F22 \cup {C22, Q22}}
     \cup {[op |-> o, f |-> pr[1], g |-> pr[2]] : o \in {"div", "rem"}, pr \in DivPairs}
-    \cup {[op |-> o, f |-> f] : o \in {"neg", "row_iter", "remove_zero_rows", "remove_zero_columns", "from_row_iter", "view_owned", "as_polytope", "as_function"}, f \in AllF}
+    \cup {[op |-> o, f |-> f] : o \in {"neg", "row_iter", "remove_zero_rows", "remove_zero_columns", "rzc_rzr", "from_row_iter", "view_owned", "as_polytope", "as_function"}, f \in AllF}
     \cup {[op |-> o, f |-> f, den |-> 2] : o \in {"apply", "apply_transpose"}, f \in AllF}
     \cup {[op |-> "views", f |-> f] : f \in AllF}
     \cup {[op |-> "reset_row", f |-> f, row |-> r] : f \in AllF, r \in 0..2}
